@@ -331,6 +331,13 @@ pub fn gen_v1(t: &mut Tape) -> Case {
                 return Case { input: l, element: element.to_string(), base: None };
             }
         }
+        "length" if t.chance(1, 4) => {
+            // a TCP6 line whose four fields are all well-formed (long spellings, dotted-quad tails) and whose only fault is its
+            // length: 108..=116 bytes
+            let total = t.usize_in(108, 116);
+            let line = gen::gen_tcp6_line_of_len(t, total);
+            return Case { input: line, element: element.to_string(), base: None };
+        }
         "length" => {
             let total = t.usize_in(108, 140);
             let mut line = b"PROXY UNKNOWN ".to_vec();
